@@ -19,12 +19,11 @@
 EXTENDS Poly, Json, IOUtils
 Recs == ndJsonDeserialize(IOEnv.QV_RECS)
 NR == Len(Recs)
-VARIABLES c, ph, s, optv      \* optv: <<instance feasible?, B * optimal cost>> of record c, computed once per record
-vars == <<c, ph, s, optv>>
+VARIABLES c, ph, s, optv, k   \* optv: <<instance feasible?, B * optimal cost>> of record c; k: its form, canonicalised once
+vars == <<c, ph, s, optv, k>>
 R == Recs[c]
 I == R.inst
-QOf == TLCEval([i \in 1..NR |-> FromRaw(Recs[i].spinform, Recs[i].terms)])
-E(a) == Eval(R.spinform, QOf[c], a)
+E(a) == Eval(R.spinform, k, a)
 Clause(name, cond) == cond \/ (PrintT(<<"QVVIOL", name, c, R.id>>) /\ FALSE)
 Case == ph = 3
 Point == ph = 4
@@ -77,13 +76,16 @@ Prob(a) == a \cap (0..(NP - 1))
 BOptNow == IF R.cls = "AlternatingSectorsChain" THEN E({}) ELSE R.B * Opt
 InstanceFeasible == optv[1]
 BOpt == optv[2]
-Init == c = 0 /\ ph = 0 /\ s = {} /\ optv = <<FALSE, 0>>
-Next == \/ ph = 0 /\ ph' = 1 /\ c' \in 1..16 /\ UNCHANGED <<s, optv>>
-        \/ ph = 1 /\ ph' = 2 /\ c' \in {i \in 1..NR : i % 16 = c % 16} /\ UNCHANGED <<s, optv>>
+Init == c = 0 /\ ph = 0 /\ s = {} /\ optv = <<FALSE, 0>> /\ k = Zero
+Next == \/ ph = 0 /\ ph' = 1 /\ c' \in 1..16 /\ UNCHANGED <<s, optv, k>>
+        \/ ph = 1 /\ ph' = 2 /\ UNCHANGED <<s, optv>>
+              /\ \E i \in {j \in 1..NR : j % 16 = c % 16} : c' = i /\ k' = FromRaw(Recs[i].spinform, Recs[i].terms)
         \* one more step computes the optimum of the chosen record (so that it is evaluated once, not per assignment)
-        \/ ph = 2 /\ ph' = 3 /\ c' = c /\ s' = s
+        \/ ph = 2 /\ ph' = 3 /\ c' = c /\ s' = s /\ k' = k
               /\ optv' = IF R.raised = "" /\ FeasibleSet # {} THEN <<TRUE, BOptNow>> ELSE <<FALSE, 0>>
-        \/ ph = 3 /\ ph' = 4 /\ c' = c /\ optv' = optv /\ s' \in SUBSET (0..(R.n - 1))
+        \* the assignment is chosen in two halves so that the workers share the assignments of one large instance
+        \/ ph = 3 /\ ph' = 35 /\ c' = c /\ optv' = optv /\ k' = k /\ s' \in SUBSET (0..((R.n \div 2) - 1))
+        \/ ph = 35 /\ ph' = 4 /\ c' = c /\ optv' = optv /\ k' = k /\ \E hi \in SUBSET ((R.n \div 2)..(R.n - 1)) : s' = s \cup hi
 Spec == Init /\ [][Next]_vars
 
 \* ---------------- clauses on the implementation's tables (problem variables only) ----------------
@@ -94,7 +96,7 @@ ArgUnchanged == Clause("ArgUnchanged", ~Case \/ R.unchanged)
 ValidIffFeasible == Clause("ValidIffFeasible", ~(Case /\ Good) \/ \A on \in Cands : TabRow(on)[3] = Feasible(on))
 \* convert_solution decodes the first np labels, boolean or spin, whatever the ancillas hold
 DecodeOK == Clause("DecodeOK", ~(Case /\ Good) \/ \A on \in Cands : ToSet(TabRow(on)[2]) = on /\ TabRow(on)[4])
-NumVars == Clause("NumVars", ~(Case /\ Good) \/ (VarsOf(QOf[c]) \subseteq 0..(R.n - 1) /\ NP <= R.n))
+NumVars == Clause("NumVars", ~(Case /\ Good) \/ (VarsOf(k) \subseteq 0..(R.n - 1) /\ NP <= R.n))
 \* problem-specific solve_bruteforce returns an optimal feasible solution
 BruteForceOK == Clause("BruteForceOK", ~(Case /\ Good /\ R.has_bf /\ InstanceFeasible) \/
                        (Feasible(ToSet(R.bf)) /\ R.B * Cost(ToSet(R.bf)) = BOpt))
